@@ -134,7 +134,7 @@ def new_program(rom: str | None = None, defines: dict[str, int] | None = None):
     from a816.program import Program
 
     program = Program()
-    if rom is not None:
+    if rom is not None and rom != "map":
         program.resolver.rom_type = getattr(RomType, ROM_TYPES[rom])
     if defines:
         for k, v in defines.items():
